@@ -388,7 +388,7 @@ func (m *model) firstOracleSafe(n *Obj) (bool, *NSet) {
 
 func checkC02(c *Check) {
 	c.Explain = "Decides the soundness conditions of the two optimisations on model grammars with opaque children (E1/E2/E3 pipeline). For -switch the source of optimizeAlternates itself is evaluated on each model (FIRST sets as mathematical sets; opaque children answer with their declared FIRST/must-consume), then the emitter is evaluated on the rewritten tree and the emitted rule function is analysed; its set of (verdict, consumed prefix, recorded tokens, successful child attempts) must equal that of the PEG oracle evaluated on the *unrewritten* twin: this covers the rewrite guard (R-rewrite: only alternatives with pairwise disjoint FIRST sets that must consume may become unordered cases), the skipped first test (R-skip: the ParentDetect flag may reach a terminal or an opaque child only where buffer[position] is still the tested rune and every rune of the case class is accepted by it), and label parity (the instantiation type-checks). R-first compares every (must-consume, FIRST) pair the closure returns with the PEG definition (an over-approximate set is accepted). R-inline: under -inline the same models and the core suite equal the oracle in which a rule referenced exactly once is replaced by its body, and no emitted call reaches a nil table entry. All for {AST,-noast}. Nothing is compared by running two parsers. Not decided: the effect on grammars that are not well formed."
-	c.Assume = []string{"assumptions of C01", "an opaque child with declared FIRST set F and must-consume fails when buffer[position] ∉ F"}
+	c.Assume = []string{"assumptions of C01", "an opaque child with declared FIRST set F and must-consume fails when buffer[position] ∉ F", "package set computes unions, intersections and membership of code-point sets correctly (its arithmetic is value-level: C16 does not decide it, and a wrong interval merge inside set.AddRange is outside this check — see seeded change C02-1)"}
 	c.Trusted = []string{"interp.go, e2.go, spec.go, setmodel.go", "go/types, go/cfg", "text/template/parse"}
 	r := mustRepo(c)
 	if r == nil {
